@@ -7,11 +7,23 @@ namespace Circus.Core
 
 def excVal (name : String) : Val := .exc (.other name)
 
-def addObj (o : PObj) : M Unit := modS fun s => { s with objs := s.objs ++ [o] }
+/-- `Popen()` succeeded: the new `Process` object exists and is entered into `processes`
+    (`none` = the exec failed, nothing changed but the kernel's attempt counter) -/
+def spawnAdopt (wuid wid : Nat) : M (Option Nat) := fun s =>
+  let (k', r) := s.k.spawn
+  match r with
+  | none => (none, { s with k := k', log := if s.blocked then s.log else s.log ++ [Obs.execfail] })
+  | some pid =>
+    let w := (s.ws.find? (·.uid = wuid)).getD defaultWatcher
+    (some pid, { s with k := k',
+                        objs := s.objs ++ [{ pid := pid, wid := wid, started := k'.now }],
+                        log := if s.blocked then s.log else s.log ++ [Obs.spawn pid w.name wid],
+                        ws := s.ws.map fun w => if w.uid = wuid then { w with pids := w.pids ++ [pid] } else w })
 
-/-- `rm_watcher`: out of the dict and out of the list -/
-def unregisterWatcher (uid : Nat) (key : String) : M Unit :=
-  modA fun a => { a with names := a.names.filter (·.1 ≠ key), watchers := a.watchers.filter (· ≠ uid) }
+/-- `rm_watcher`: out of the dict (`_watchers_names.pop(name.lower())`, the entry of this watcher)
+    and out of the list -/
+def unregisterWatcher (uid : Nat) : M Unit :=
+  modA fun a => { a with names := a.names.filter (·.2 ≠ uid), watchers := a.watchers.filter (· ≠ uid) }
 
 def setStopping : M Unit := modA fun a => { a with stopping := true }
 def setRestarting : M Unit := modA fun a => { a with restarting := true, stopping := true }
@@ -84,14 +96,11 @@ def spawnTry (rec : Rec) (wuid : Nat) : Nat → M SpawnRes
     match nextWid w.np used with
     | none => pure (.raised "RuntimeError")
     | some wid =>
-      let p ← kSpawn
+      let p ← spawnAdopt wuid wid
       match p with
       | none => spawnTry rec wuid tries
       | some pid =>
         let now ← nowMs
-        addObj { pid := pid, wid := wid, started := now }
-        emit (.spawn pid w.name wid)
-        addPid wuid pid
         let r ← callHook wuid "after_spawn"
         if !r then
           -- called without yield: detached; the worker stays registered until the kill is done
@@ -262,10 +271,8 @@ def reloadSeqAfterKill (rec : Rec) (wuid pid : Nat) (rest : List Nat) (wt : Wait
     awaitSleep w.warmup (.reloadSeqAfterSleep wuid rest) wt
 
 def setNumprocesses (rec : Rec) (wuid : Nat) (n : Int) (wt : Waiter) : M Unit := do
-  let w ← getW wuid
-  let n := if n < 0 then 0 else n
-  if w.singleton && n > 1 then deliver rec wt (excVal "ValueError") else
-  setNp wuid n
+  let ok ← trySetNp wuid n
+  if !ok then deliver rec wt (excVal "ValueError") else
   await rec (.manageProcesses wuid) (.setNpTail wuid) wt
 
 def doAction (rec : Rec) (wuid : Nat) (num : Int) (wt : Waiter) : M Unit := do
@@ -334,9 +341,8 @@ def manageWatchers (rec : Rec) (wt : Waiter) : M Unit := do
   awaitMulti rec (ws.map fun w => .manageProcesses w) .ignore wt
 
 def rmWatcher (rec : Rec) (uid : Nat) (nostop : Bool) (wt : Waiter) : M Unit := do
-  let w ← getW uid
   notify uid "remove" none
-  unregisterWatcher uid (lower w.name)
+  unregisterWatcher uid
   if !nostop then await rec (.stop_ uid false) .ignore wt else deliver rec wt .unit
 
 /-! ### the interpreter -/
@@ -415,11 +421,12 @@ def runResume (rec : Rec) (k : Kont) (v : Val) (wt : Waiter) : M Unit :=
 /-- the interpreter: `fuel` bounds the number of nested task activations -/
 def exec : Nat → Task → M Unit
   | 0, _ => emit .outOfFuel
-  | fuel + 1, t => fun s =>
-    if s.blocked then ((), s) else
+  | fuel + 1, t => do
+    let s ← getS
+    if s.blocked then pure () else
     match t with
-    | .call c w => runCall (exec fuel) c w s
-    | .resume k v w => runResume (exec fuel) k v w s
+    | .call c w => runCall (exec fuel) c w
+    | .resume k v w => runResume (exec fuel) k v w
 
 end Circus.Core
 
